@@ -65,8 +65,9 @@ DecJStr(s, i, acc, lenient) ==
   IF i > Len(s) THEN [ok |-> FALSE, s |-> <<>>, i |-> 0]
   ELSE LET c == s[i] IN
     IF c = 34 THEN [ok |-> TRUE, s |-> acc, i |-> i + 1]
-    ELSE IF c < 32 THEN (IF lenient /\ c >= 0 THEN DecJStr(s, i + 1, Append(acc, c), lenient)
-                         ELSE [ok |-> FALSE, s |-> <<>>, i |-> 0])
+    \* a raw control character is outside unescaped-char (%x20-21 / %x23-5B / %x5D-10FFFF), in
+    \* quoted identifiers as in JSON strings: never admitted, under no reading
+    ELSE IF c < 32 THEN [ok |-> FALSE, s |-> <<>>, i |-> 0]
     ELSE IF c # 92 THEN DecJStr(s, i + 1, Append(acc, c), lenient)
     ELSE IF i + 1 > Len(s) THEN [ok |-> FALSE, s |-> <<>>, i |-> 0]
     ELSE LET d == s[i + 1] IN
